@@ -11,6 +11,7 @@ import (
 	"sort"
 	"strconv"
 	"strings"
+	"sync"
 
 	"github.com/samber/ro"
 	"verifharness/internal/rec"
@@ -150,12 +151,32 @@ func (b *B) note(s string) {
 	}
 }
 
-// Mid derives the mid-pipeline marker context.
+var (
+	midMu      sync.Mutex
+	midApplied = map[string]bool{}
+)
+
+// Mid derives the mid-pipeline marker context and remembers the item tag of
+// the context it was applied to (C09 checks that it stays visible downstream).
 func Mid(ctx context.Context) context.Context {
 	if ctx == nil {
 		return nil
 	}
+	if t := ctx.Value(rec.ItemKey); t != nil {
+		midMu.Lock()
+		midApplied[fmt.Sprint(t)] = true
+		midMu.Unlock()
+	}
 	return context.WithValue(ctx, rec.MidKey, "mid")
+}
+
+// MidApplied returns and resets the set of item tags Mid was applied to.
+func MidApplied() map[string]bool {
+	midMu.Lock()
+	defer midMu.Unlock()
+	out := midApplied
+	midApplied = map[string]bool{}
+	return out
 }
 
 // Pipeline is a built, untyped pipeline.
@@ -200,6 +221,7 @@ const (
 	NonDet                        // output values are not deterministic (random, timestamps)
 	NoSrcOnZero                   // documented: source never subscribed (Take(0), TakeLast(0), RepeatWith(0))
 	KeepsSource                   // hot by configuration: keeps its upstream subscription when the last subscriber leaves (ShareReplay)
+	Hot                           // shares one upstream execution between subscribers (Share*, connectable)
 	AggCtx                        // emits derived values at completion (ctx of the completion or any contributing item)
 )
 
